@@ -7,8 +7,8 @@ ALL = ['C%02d' % i for i in range(1, 21)]
 NOT_YET = 'check not built yet in this round; the plan is in DESIGN.md section 5 (to be claimed when its model, theorems and correspondence harness exist)'
 checks = []; na = []
 for pid in ALL:
-    if os.path.exists(os.path.join(HERE, 'checks', pid + '.py')):
-        m = importlib.import_module(pid)
+    m = importlib.import_module(pid) if os.path.exists(os.path.join(HERE, 'checks', pid + '.py')) else None
+    if m is not None and getattr(m, 'READY', False):
         mf = getattr(m, 'MANIFEST', {})
         checks.append(dict(
             property_id=pid,
